@@ -12,8 +12,60 @@ VERIF = os.path.dirname(os.path.dirname(os.path.abspath(__file__)))
 SEEDED = os.path.join(VERIF, "seeded")
 
 
+def run_parallel(only, jobs):
+    """development variant: every seed gets its own scratch worktree of /repo HEAD under /tmp (removed afterwards) and
+    the check runs with SBEPP_REPO pointing there; /repo itself is not touched.  The registered way (apply to /repo,
+    run, undo) is the sequential mode."""
+    import shutil
+    import tempfile
+    from concurrent.futures import ThreadPoolExecutor
+
+    def one(sid):
+        d = os.path.join(SEEDED, sid)
+        meta = json.load(open(os.path.join(d, "meta.json")))
+        prop = meta["property"]
+        wt = tempfile.mkdtemp(prefix="seedwt_", dir="/tmp")
+        os.rmdir(wt)
+        try:
+            subprocess.check_call(["git", "-C", "/repo", "worktree", "add", "--detach", wt, "HEAD"], stdout=subprocess.DEVNULL, stderr=subprocess.DEVNULL)
+            r = subprocess.run(["git", "-C", wt, "apply", os.path.join(d, "patch.diff")], capture_output=True, text=True)
+            if r.returncode != 0:
+                return {"seed": sid, "property": prop, "exit": None, "rules": [], "note": "patch no longer applies: " + r.stderr[:120]}
+            env = dict(os.environ, SBEPP_REPO=wt)
+            r = subprocess.run([sys.executable, os.path.join(VERIF, "sa", "run.py"), prop, "--tier", "quick"], capture_output=True, text=True, cwd=VERIF, env=env)
+            rules = sorted(set(m.group(1) for m in re.finditer(r"^\S+: ([A-Za-z0-9_.\-]+): \[", r.stdout, re.M)))
+            nviol = sum(1 for l in r.stdout.splitlines() if l.startswith("VIOLATION"))
+            print("%-48s %s exit=%s violations=%d rules=%s" % (sid, prop, r.returncode, nviol, rules), flush=True)
+            return {"seed": sid, "property": prop, "exit": r.returncode, "violations": nviol, "rules": rules}
+        finally:
+            subprocess.call(["git", "-C", "/repo", "worktree", "remove", "--force", wt], stdout=subprocess.DEVNULL, stderr=subprocess.DEVNULL)
+            shutil.rmtree(wt, ignore_errors=True)
+    sids = [s for s in sorted(os.listdir(SEEDED)) if os.path.isdir(os.path.join(SEEDED, s)) and (not only or s in only)]
+    with ThreadPoolExecutor(jobs) as ex:
+        rows = list(ex.map(one, sids))
+    subprocess.call(["git", "-C", VERIF, "checkout", "--", "evidence"])
+    return rows
+
+
+def write_results(rows):
+    json.dump(rows, open(os.path.join(SEEDED, "RESULTS.json"), "w"), indent=1)
+    with open(os.path.join(SEEDED, "RESULTS.md"), "w") as f:
+        f.write("| seed | property | quick check exit | rules that fired |\n|---|---|---|---|\n")
+        for r_ in rows:
+            f.write("| %s | %s | %s | %s |\n" % (r_["seed"], r_["property"], r_["exit"], ", ".join(r_["rules"]) or r_.get("note", "-")))
+
+
 def main():
     only = sys.argv[1:]
+    if only and only[0] == "--parallel":
+        jobs = int(only[1])
+        only = only[2:]
+        rows = run_parallel(only, jobs)
+        if not only:
+            write_results(rows)
+        missed = [r_["seed"] for r_ in rows if r_["exit"] != 1]
+        print("missed:", missed)
+        return 1 if missed else 0
     rows = []
     st = subprocess.run(["git", "-C", "/repo", "status", "--porcelain", "--untracked-files=no"], capture_output=True, text=True).stdout.strip()
     if st:
